@@ -1250,7 +1250,12 @@ class MachineNode(StateNode[TContext, TEvent]):
             The `StateNode` if found, otherwise `None`.
         """
         logger.debug("🔍 Searching for state with ID: '%s'", state_id)
+        # 🪪 The machine id is matched as a whole: it may itself contain dots
+        #    ("app.v2"), state keys cannot.
+        key_segments = self.key.split(".")
         path_segments = state_id.split(".")
+        if path_segments[: len(key_segments)] == key_segments:
+            path_segments = [self.key] + path_segments[len(key_segments) :]
 
         # 🛡️ The path must start with the machine's own ID.
         if not path_segments or path_segments[0] != self.key:
